@@ -97,6 +97,7 @@ type sengine struct {
 	lookup     func(p *spath, fr *sframe, x *ssa.Lookup, m, key iv) (iv, bool)
 	store      func(p *spath, fr *sframe, x *ssa.Store, addr, val iv) // observes every store
 	modulePure bool                                                   // small functions of other packages of the module are entered on concrete arguments
+	concreteSlices bool                 // append/len over concrete slices are computed (byte-level code run on a representative string)
 	stopBlocks map[*ssa.BasicBlock]bool // a path of the function under analysis ends when it enters one of these
 	outcomes   []soutcome
 	budget     int
@@ -324,6 +325,39 @@ func (e *sengine) doCall(p *spath, fr *sframe, x *ssa.Call) (stopped bool) {
 			}
 			if r, ok := e.builtin(p, fr, x, b.Name(), args); ok {
 				fr.vals[x] = r
+				return false
+			}
+		}
+		if b.Name() == "len" && len(x.Call.Args) == 1 && e.concreteSlices {
+			if a := e.val(fr, x.Call.Args[0]); a.k == 'n' {
+				fr.vals[x] = ivInt(0)
+			}
+		}
+		if b.Name() == "append" && len(x.Call.Args) == 2 && e.concreteSlices {
+			// concrete slices: the concatenation, as a new value
+			a, bb := e.val(fr, x.Call.Args[0]), e.val(fr, x.Call.Args[1])
+			var out []iv
+			okA := true
+			switch a.k {
+			case 'a':
+				out = append(out, *a.arr...)
+			case 'n':
+			default:
+				okA = false
+			}
+			switch bb.k {
+			case 'a':
+				out = append(out, *bb.arr...)
+			case 'n':
+			case 'S':
+				for i := 0; i < len(bb.s); i++ {
+					out = append(out, ivInt(int64(bb.s[i])))
+				}
+			default:
+				okA = false
+			}
+			if okA {
+				fr.vals[x] = iv{k: 'a', arr: &out}
 			}
 		}
 		return false
@@ -498,7 +532,40 @@ func (e *sengine) step(p *spath, fr *sframe, in ssa.Instruction) {
 			}
 		}
 	case *ssa.Convert:
-		fr.vals[x] = e.val(fr, x.X)
+		v := e.val(fr, x.X)
+		// between a concrete string and its bytes (a representative value run through byte-level code)
+		if isByteSlice(x.Type()) && v.k == 'S' {
+			arr := make([]iv, len(v.s))
+			for i := 0; i < len(v.s); i++ {
+				arr[i] = ivInt(int64(v.s[i]))
+			}
+			fr.vals[x] = iv{k: 'a', arr: &arr}
+			return
+		}
+		if b, ok := x.Type().Underlying().(*types.Basic); ok && b.Kind() == types.String {
+			if v.k == 'a' {
+				bs := make([]byte, 0, len(*v.arr))
+				for _, el := range *v.arr {
+					if el.k != 'i' {
+						return
+					}
+					bs = append(bs, byte(el.i))
+				}
+				fr.vals[x] = iv{k: 'S', s: string(bs)}
+				return
+			}
+			if v.k == 'n' {
+				fr.vals[x] = iv{k: 'S', s: ""}
+				return
+			}
+			if v.k == 'i' {
+				if sb, ok := x.X.Type().Underlying().(*types.Basic); ok && sb.Info()&types.IsInteger != 0 {
+					fr.vals[x] = iv{k: 'S', s: string(rune(v.i))}
+					return
+				}
+			}
+		}
+		fr.vals[x] = v
 	case *ssa.ChangeType:
 		fr.vals[x] = e.val(fr, x.X)
 	case *ssa.ChangeInterface:
@@ -569,6 +636,10 @@ func (e *sengine) step(p *spath, fr *sframe, in ssa.Instruction) {
 		}
 	case *ssa.FieldAddr:
 		base := e.val(fr, x.X)
+		if base.k == 'c' && len(base.tup) == 1 && base.tup[0].k == 'T' {
+			// a local copy of a node of a constant table, read field by field
+			base = iv{k: 't', tree: base.tup[0].tree}
+		}
 		if base.k == 't' {
 			if f, _ := fieldOfAddr(x); f != nil {
 				if ch := base.tree.field(f.Name()); ch != nil {
@@ -625,6 +696,31 @@ func (e *sengine) step(p *spath, fr *sframe, in ssa.Instruction) {
 	case *ssa.Slice:
 		if a := e.val(fr, x.X); a.k == 'a' && x.Low == nil && x.High == nil {
 			fr.vals[x] = a
+		} else if a.k == 'n' {
+			fr.vals[x] = a
+		} else if a.k == 'a' {
+			// a part of a concrete slice: a copy (the interpreter's slices are values; no rule depends on aliasing
+			// between a slice and its parts)
+			lo, hi := int64(0), int64(len(*a.arr))
+			okB := true
+			if x.Low != nil {
+				if v := e.val(fr, x.Low); v.k == 'i' {
+					lo = v.i
+				} else {
+					okB = false
+				}
+			}
+			if x.High != nil {
+				if v := e.val(fr, x.High); v.k == 'i' {
+					hi = v.i
+				} else {
+					okB = false
+				}
+			}
+			if okB && lo >= 0 && lo <= hi && hi <= int64(len(*a.arr)) {
+				cp := append([]iv(nil), (*a.arr)[lo:hi]...)
+				fr.vals[x] = iv{k: 'a', arr: &cp}
+			}
 		} else if a.k == 'S' {
 			lo, hi := int64(0), int64(len(a.s))
 			okB := true
